@@ -19,7 +19,7 @@ private theorem find?_of_mem (l : List Task) (hnd : (l.map (·.id)).Nodup) (t : 
       rw [List.find?_cons_of_neg (by simpa using hne)]
       exact ih hnd.2 ht'
 
-private theorem find?_perm (l l' : List Task) (hp : l.Perm l') (hnd : (l.map (·.id)).Nodup) (id : Id) :
+theorem find?_perm_tasks (l l' : List Task) (hp : l.Perm l') (hnd : (l.map (·.id)).Nodup) (id : Id) :
     l.find? (·.id == id) = l'.find? (·.id == id) := by
   cases h : l'.find? (·.id == id) with
   | none =>
@@ -66,7 +66,7 @@ theorem obsEq_compacted (g : Graph) (h : GraphOK' g) : ObsEq (compacted g) g := 
       simp only [Graph.find?, compacted, List.find?_map]
       congr 2
       funext t; simp [rebuild_id]
-    rw [h1, find?_perm _ _ hp hnd id]
+    rw [h1, find?_perm_tasks _ _ hp hnd id]
     show Option.map obsTask (Option.map rebuild (g.find? id)) = _
     cases hf : g.find? id with
     | none => rfl
